@@ -155,9 +155,12 @@ def run(ctx):
   ok = ok and len(rv) == 1 and isinstance(rv[0].value, ast.Call) and u(rv[0].value.func) == 'cls_meta.__call__' and u(rv[0].value.args[0]) == mcw.params[0]
   ctx.check(ok, 'C13.metadata', construct(mcw), 'constructing Gin\'s direct subclass yields an instance of the original class itself',
             'the metaclass call wrapper no longer substitutes the original class for Gin\'s direct subclass', mcw.loc(), instance='instance-of-original')
-  br = [n for n in walk_local(dec.node) if isinstance(n, ast.If) and u(n.test) == 'method_overrides']
-  ok = bool(br) and any(isinstance(s, ast.Assign) and u(s.value) == 'cls_meta.__call__' for s in br[0].body) and \
-      any(isinstance(s, ast.Assign) and isinstance(s.value, ast.Call) and prog.resolve_call(dec, s.value) == 'config._make_meta_call_wrapper' for s in br[0].orelse)
+  gd, fd = std_facts(prog, dec)
+  plain = [n for n in gd.live_nodes() if n.kind == 'stmt' and isinstance(n.ast, ast.Assign) and u(n.ast.value) == 'cls_meta.__call__']
+  subst = [n for n in gd.live_nodes() if n.kind == 'stmt' and isinstance(n.ast, ast.Assign) and isinstance(n.ast.value, ast.Call)
+           and prog.resolve_call(dec, n.ast.value) == 'config._make_meta_call_wrapper']
+  ok = bool(plain) and bool(subst) and all(('c', 'method_overrides', True) in fd[n.id] for n in plain) and \
+      all(('c', 'method_overrides', False) in fd[n.id] for n in subst)
   ctx.check(ok, 'C13.metadata', construct(dec), 'the original-class substitution is used exactly when no registered methods need overriding',
             'the choice between plain and substituting metaclass call changed', dec.loc(), instance='no-overrides')
 
